@@ -23,6 +23,8 @@ def parse_region_spec(s):
         return ('fn', s[3:])
     if s.startswith('alias:'):
         return ('alias', s[6:])
+    if s.startswith('into:'):
+        return ('into', s[5:])
     if s == 'null':
         return ('null',)
     raise ValueError('region spec %r' % s)
@@ -361,6 +363,8 @@ class CallMixin:
         ctx = self.clause_ctx(self.frame, 'call', names, old, None)
         tr = Translator(ctx, self.reg.defs)
         for ln, ldef in c.logical.items():
+            if ldef.strip().startswith('fresh:'):
+                raise Unsupported('contract of %s has ghost parameters: it can only be inlined' % c.name)
             names[ln] = tr.expr(ldef)
         if c.allocates:
             # ghost: "an allocation failed inside this activation of the callee"
@@ -461,6 +465,10 @@ class CallMixin:
             if v.region.kind != 'cell':
                 raise Unsupported('shape: %s should point to a scalar object' % path)
             extents[path] = (v.region, None, None)
+        elif kind[0] == 'into':
+            w = tr.expr(kind[1])
+            if not isinstance(w, Ptr) or w.region is not v.region:
+                raise Unsupported('shape: %s does not point into %s' % (path, kind[1]))
         elif kind[0] == 'alias':
             w = tr.expr(kind[1])
             same = tr.ctx.ptr_same(v, w)
